@@ -1033,6 +1033,10 @@ def energy_prolongation_smoother(A, T, Atilde, B, Bf, Cpt_params,
     if min(T.nnz, A.nnz) == 0:
         return T
 
+    if weighting == 'block' and A.blocksize[0] == 1:
+        # 1x1 blocks: the block-diagonal inverse is the diagonal inverse
+        weighting = 'diagonal'
+
     if not sparse.issparse(Atilde) or Atilde.format != 'csr':
         raise TypeError('Atilde must be csr_array')
 
